@@ -10,6 +10,7 @@ package main
 
 import (
 	"bytes"
+	"crypto/tls"
 	"encoding/base64"
 	"encoding/binary"
 	"fmt"
@@ -324,6 +325,7 @@ func (cs *ctlSess) reader() {
 					_ = cs.send(&msg.NatHoleResp{TransactionID: v.TransactionID, Error: "pre-check refused"})
 				}
 			} else {
+				go junkDatagrams(append(append([]string{}, v.MappedAddrs...), v.AssistedAddrs...), g.Bytes(64))
 				for _, r := range advNatHoleResps(g, v.TransactionID) {
 					_ = cs.send(r)
 				}
@@ -332,6 +334,7 @@ func (cs *ctlSess) reader() {
 			cs.mu.Lock()
 			cs.nHoleReq++
 			cs.mu.Unlock()
+			go junkDatagrams(append(append([]string{}, v.MappedAddrs...), v.AssistedAddrs...), g.Bytes(64))
 			if cs.holeErr.Load() {
 				_ = cs.send(&msg.NatHoleResp{TransactionID: v.TransactionID, Error: "refused"})
 				continue
@@ -344,6 +347,30 @@ func (cs *ctlSess) reader() {
 			for _, r := range advNatHoleResps(g, v.TransactionID) {
 				_ = cs.send(r)
 			}
+		}
+	}
+}
+
+// junkDatagrams: while the child waits for detect messages on the socket it announced (mapped = what STUN told it,
+// assisted = its local addresses), datagrams of every length 0..64 arrive there; three rounds over about 120 ms.
+func junkDatagrams(addrs []string, junk []byte) {
+	seen := map[string]bool{}
+	for round := 0; round < 3; round++ {
+		time.Sleep(time.Duration(10+round*45) * time.Millisecond)
+		for _, a := range addrs {
+			ua, err := net.ResolveUDPAddr("udp4", a)
+			if err != nil || ua.Port == 0 || (round == 0 && seen[ua.String()]) {
+				continue
+			}
+			seen[ua.String()] = true
+			c, err := net.DialUDP("udp4", nil, ua)
+			if err != nil {
+				continue
+			}
+			for n := 0; n <= 64; n++ {
+				_, _ = c.Write(junk[:n])
+			}
+			c.Close()
 		}
 	}
 }
@@ -485,6 +512,29 @@ var httpish = []string{"GET / HTTP/1.1\r\nHost: c16.test\r\n\r\n", "GET /static/
 	"CONNECT 127.0.16.1:1 HTTP/1.1\r\nHost: 127.0.16.1:1\r\n\r\n", "CONNECT :0 HTTP/1.1\r\n\r\n", "CONNECT [::1 HTTP/1.1\r\nHost: x\r\n\r\n", "GET http://127.0.16.1:1/ HTTP/1.1\r\nHost: 127.0.16.1:1\r\nProxy-Authorization: Basic !!!\r\n\r\n",
 	"GET / HTTP/1.1\r\nContent-Length: -5\r\n\r\n", "POST / HTTP/1.1\r\nHost: x\r\nTransfer-Encoding: chunked\r\n\r\nffffffffffffffff\r\n", "GET / HTTP/9.9\r\n\r\n", "PRI * HTTP/2.0\r\n\r\nSM\r\n\r\n",
 	"GET " + strings.Repeat("/a", 40000) + " HTTP/1.1\r\n\r\n", "\r\n\r\n", "GET / HTTP/1.1\r\nHost: x\r\nX-Forwarded-For: " + strings.Repeat("1.1.1.1, ", 500) + "\r\n\r\n"}
+
+// authVariants: what a user may put behind "Proxy-Authorization:" / "Authorization:" (dTpw = u:p)
+var authVariants = []string{"Basic", "Basic ", "Basic  ", "basic", "Basic dTpw", "basic dTpw", "BASIC  dTpw", "Basic dTpw extra", "Basic !!!", "Basic dQ==", "Basic OnA=", "Basic Og==", "Basic " + strings.Repeat("QUFB", 3000),
+	"Bearer x", "Digest", "", " ", "\t", "Basic\tdTpw", "Negotiate " + strings.Repeat("A", 100), "Basic \xff\xfe"}
+
+// httpWithAuth: requests for the plugins that check credentials themselves (http_proxy on CONNECT in the bare work-connection
+// goroutine; http_proxy otherwise and static_file inside net/http handlers).
+func httpWithAuth(g *hx.Gen) string {
+	a := authVariants[g.Intn(len(authVariants))]
+	hdr := g.Pick([]string{"Proxy-Authorization", "Proxy-Authorization", "Authorization", "proxy-authorization"})
+	line := g.Pick([]string{"CONNECT 127.0.16.1:1 HTTP/1.1", "CONNECT 127.0.16.1:1 HTTP/1.1", "CONNECT / HTTP/1.1", "CONNECT [::1 HTTP/1.1", "GET http://127.0.16.1:1/ HTTP/1.1", "GET /static/index.html HTTP/1.1", "GET / HTTP/1.1", "POST http://127.0.16.1:1/x HTTP/1.1"})
+	host := g.Pick([]string{"Host: 127.0.16.1:1\r\n", "Host: x\r\n", "", "Host:\r\n"})
+	extra := ""
+	if g.Chance(0.3) {
+		extra = hdr + ": " + authVariants[g.Intn(len(authVariants))] + "\r\n" // the header twice
+	}
+	return line + "\r\n" + host + hdr + ": " + a + "\r\n" + extra + "\r\n"
+}
+
+// socksAuth: SOCKS5 greetings that offer user/password, followed by (mal)formed sub-negotiations and requests
+var socksAuth = [][]byte{{5, 1, 2}, {5, 1, 2, 1, 1, 'u', 1, 'p'}, {5, 1, 2, 1, 1, 'u', 1, 'p', 5, 1, 0, 1, 127, 0, 16, 1, 0, 1}, {5, 1, 2, 1, 255, 'u'}, {5, 1, 2, 1, 0, 0}, {5, 1, 2, 1, 1, 'u', 255},
+	{5, 1, 2, 2, 1, 'u', 1, 'p'}, {5, 2, 0, 2, 1, 1, 'x', 1, 'y'}, {5, 1, 2, 1}, {5, 1, 2, 1, 1, 'u', 1, 'p', 5, 1, 0, 3, 0}, {5, 1, 2, 1, 1, 'u', 1, 'p', 5, 1, 0, 3, 255, 'a'}, {5, 1, 2, 1, 1, 'u', 1, 'p', 5, 1, 0, 4, 1, 2},
+	{5, 1, 2, 1, 1, 'u', 1, 'p', 5, 3, 0, 1, 0, 0, 0, 0, 0, 0}, {5, 1, 2, 1, 1, 'u', 1, 'p', 5, 1, 0, 9, 1}, {5, 0, 1, 1, 'u', 1, 'p'}}
 
 var socksish = [][]byte{{5, 1, 0}, {5, 1, 0, 5, 1, 0, 1, 127, 0, 16, 1, 0, 1}, {5, 1, 0, 5, 1, 0, 3, 255}, {5, 255}, {4, 1, 0, 80, 127, 0, 0, 1, 0}, {5, 1, 0, 5, 3, 0, 4, 0, 0, 0, 0, 0, 0, 0, 0, 0, 0, 0, 0, 0, 0, 0, 1, 0, 9},
 	{5, 1, 2, 1, 255}, {5, 0}, {5, 1, 0, 5, 2, 0, 1, 0, 0, 0, 0, 0, 0}, {5, 1, 0, 5, 9, 0, 9}}
@@ -871,11 +921,33 @@ func (e *epoch) barrageWorkConn(ic *inConn, g *hx.Gen) {
 		}
 		readSome(c, time.Duration(10+g.Intn(60))*time.Millisecond)
 	case "http":
-		_, _ = io.WriteString(c, httpish[g.Intn(len(httpish))])
+		if g.Chance(0.5) {
+			_, _ = io.WriteString(c, httpWithAuth(g))
+		} else {
+			_, _ = io.WriteString(c, httpish[g.Intn(len(httpish))])
+		}
 		readSome(c, time.Duration(20+g.Intn(80))*time.Millisecond)
 	case "socks":
-		_, _ = c.Write(socksish[g.Intn(len(socksish))])
+		if g.Chance(0.5) {
+			_, _ = c.Write(socksAuth[g.Intn(len(socksAuth))])
+		} else {
+			_, _ = c.Write(socksish[g.Intn(len(socksish))])
+		}
 		readSome(c, time.Duration(20+g.Intn(80))*time.Millisecond)
+	case "tls": // the user of an https2http proxy: a TLS handshake (no / odd SNI) through the work connection, then a request
+		name := g.Pick([]string{"", "", "x.test", "A.TEST", strings.Repeat("s", 200) + ".test"})
+		if g.Chance(0.25) {
+			_, _ = c.Write(append([]byte{0x16, 3, 1}, g.Bytes(2+g.Intn(200))...))
+			readSome(c, 40*time.Millisecond)
+			break
+		}
+		_ = c.SetDeadline(time.Now().Add(800 * time.Millisecond))
+		tc := tls.Client(c, &tls.Config{ServerName: name, InsecureSkipVerify: true})
+		if tc.Handshake() == nil {
+			_, _ = io.WriteString(tc, g.Pick([]string{"GET / HTTP/1.1\r\nHost: x\r\n\r\n", "GET / HTTP/1.1\r\n\r\n", "GET / HTTP/1.1\r\nHost:\r\n\r\n", httpWithAuth(g)}))
+			b := make([]byte, 512)
+			_, _ = tc.Read(b)
+		}
 	case "udp":
 		n := 1 + g.Intn(8)
 		for i := 0; i < n; i++ {
@@ -1513,6 +1585,79 @@ func (e *epoch) runDirected(out *epochOut, fail func(key, what string), runWD fu
 		}
 		cs.holeErr.Store(false)
 		runWD("directed:stun-flood", "STUN", detail)
+	case "plugin-users":
+		// the fake server plays the users of every plugin proxy: one work connection per (proxy, request) pair, the requests
+		// enumerated (not drawn): every authorization header variant on CONNECT and GET for the http_proxy plugins, ...
+		type userReq struct {
+			target  string
+			payload []byte
+		}
+		var plan []userReq
+		for _, a := range authVariants {
+			for _, hdr := range []string{"Proxy-Authorization", "Authorization"} {
+				for _, line := range []string{"CONNECT 127.0.16.1:1 HTTP/1.1\r\nHost: 127.0.16.1:1\r\n", "GET http://127.0.16.1:1/ HTTP/1.1\r\nHost: 127.0.16.1:1\r\n", "GET /static/index.html HTTP/1.1\r\nHost: x\r\n"} {
+					req := []byte(line + hdr + ": " + a + "\r\n\r\n")
+					plan = append(plan, userReq{pxHPA, req}, userReq{pxSFA, req})
+					if hdr == "Proxy-Authorization" {
+						plan = append(plan, userReq{pxHP, req})
+					}
+				}
+			}
+		}
+		for _, h := range httpish {
+			plan = append(plan, userReq{pxHPA, []byte(h)}, userReq{pxSF, []byte(h)}, userReq{pxH2H, []byte(h)})
+		}
+		for _, b := range append(append([][]byte{}, socksAuth...), socksish...) {
+			plan = append(plan, userReq{pxS5A, b}, userReq{pxS5, b})
+		}
+		e.waitRunning(cs, pxHPA, 3*time.Second)
+		e.waitRunning(cs, pxS5A, 2*time.Second)
+		cs.honest.Store(true)
+		e.step("directed:plugin-users", "StartWorkConn", fmt.Sprintf("%d enumerated user requests to the plugin proxies", len(plan)))
+		done := 0
+		for done < len(plan) && e.ch.alive() && !cs.isDead() {
+			k := len(plan) - done
+			if k > 10 {
+				k = 10
+			}
+			e.wdWant.Store(true)
+			for i := 0; i < k; i++ {
+				_ = cs.send(&msg.ReqWorkConn{})
+			}
+			got := 0
+			deadline := time.After(600 * time.Millisecond)
+		chunk:
+			for got < k {
+				select {
+				case ic := <-e.wdConn:
+					u := plan[done+got]
+					got++
+					_ = ic.c.SetWriteDeadline(time.Now().Add(time.Second))
+					_ = msg.WriteMsg(ic.c, &msg.StartWorkConn{ProxyName: u.target, SrcAddr: "1.2.3.4", SrcPort: 5, DstAddr: "5.6.7.8", DstPort: 80})
+					_, _ = ic.c.Write(u.payload)
+					e.bgWG.Add(1)
+					go func() {
+						defer e.bgWG.Done()
+						readSome(ic.c, 60*time.Millisecond)
+						ic.c.Close()
+					}()
+				case <-deadline:
+					break chunk
+				}
+			}
+			e.wdWant.Store(false)
+			if got == 0 {
+				break
+			}
+			done += got
+			time.Sleep(20 * time.Millisecond)
+		}
+		time.Sleep(100 * time.Millisecond)
+		detail := fmt.Sprintf("%d of %d enumerated user requests sent to the plugin proxies", done, len(plan))
+		if e.checkCrash("directed:plugin-users") {
+			return out
+		}
+		runWD("directed:plugin-users", "StartWorkConn", detail)
 	case "many-proxies-drop":
 		// 136 proxies; the control connection is lost.  Every wrapper's Stop sends a CloseProxy through the transporter into
 		// the dispatcher's 100-slot send channel, which nobody drains any more once the dispatcher has ended.
@@ -1672,10 +1817,10 @@ func runClientBarrage(cfg *hx.RunCfg) error {
 		Tail: "Definition M := Eval vm_compute in mismatches check_case cases.\nPrint M.\n" +
 			"Definition NCLIENT := Eval vm_compute in count_if client_case cases.\nPrint NCLIENT.\n" +
 			"Definition NCLIENTLOGIN := Eval vm_compute in count_if client_login_case cases.\nPrint NCLIENTLOGIN.\n"}
-	lanes := 6
+	lanes := 10
 	perEpoch := 125
 	if cfg.Tier == "thorough" {
-		lanes = 8
+		lanes = 10
 		perEpoch = 160
 	}
 	nEpochs := (cfg.N + perEpoch - 1) / perEpoch
